@@ -347,6 +347,9 @@ func StructTypeField(tpe ast.BaseTerm, field ast.Constant) (ast.BaseTerm, error)
 				return arg.(ast.ApplyFn).Args[1], nil
 			}
 			i++
+			if i >= len(elems) {
+				return nil, fmt.Errorf("no type for field %v in %v", field, tpe)
+			}
 			return elems[i], nil
 		}
 	}
